@@ -699,7 +699,9 @@ def shard(ctx: runner.Ctx) -> None:
     base = ctx.scratch
     shm = make_shm()
     drawn = []  # type: List[Dict[str, Any]]
-    runner.hyp_run(cases(), drawn.append, n_gen, ctx.seed)
+    # neighbouring Hypothesis examples resemble one another and the first ones are minimal: draw 4x, keep every 4th
+    runner.hyp_run(cases(), drawn.append, 4 * n_gen, ctx.seed)
+    drawn = drawn[3::4][:n_gen]
 
     # (case, target) units
     units = []  # type: List[Dict[str, Any]]
